@@ -146,7 +146,9 @@ func (g *generator) walkObject(schema *openapi3.Schema) (ast.Type, error) {
 			return ast.Type{}, err
 		}
 
-		return ast.NewMap(ast.String(), valueType), nil
+		t := ast.NewMap(ast.String(), valueType)
+		t.Nullable = schema.Nullable
+		return t, nil
 	}
 
 	fields := make([]ast.StructField, 0, len(schema.Properties))
@@ -166,13 +168,17 @@ func (g *generator) walkObject(schema *openapi3.Schema) (ast.Type, error) {
 		return fields[i].Name < fields[j].Name
 	})
 
-	return ast.NewStruct(fields...), nil
+	t := ast.NewStruct(fields...)
+	t.Nullable = schema.Nullable
+	return t, nil
 }
 
 func (g *generator) walkArray(schema *openapi3.Schema) (ast.Type, error) {
 	// `items` is mandatory, but unvalidated documents might not have it
 	if schema.Items == nil {
-		return ast.NewArray(ast.Any(), ast.Default(schema.Default)), nil
+		t := ast.NewArray(ast.Any(), ast.Default(schema.Default))
+		t.Nullable = schema.Nullable
+		return t, nil
 	}
 
 	def, err := g.walkSchemaRef(schema.Items)
@@ -180,7 +186,9 @@ func (g *generator) walkArray(schema *openapi3.Schema) (ast.Type, error) {
 		return ast.Type{}, err
 	}
 
-	return ast.NewArray(def, ast.Default(schema.Default)), nil
+	t := ast.NewArray(def, ast.Default(schema.Default))
+	t.Nullable = schema.Nullable
+	return t, nil
 }
 
 func (g *generator) walkString(schema *openapi3.Schema) (ast.Type, error) {
@@ -240,7 +248,9 @@ func (g *generator) walkInteger(schema *openapi3.Schema) (ast.Type, error) {
 }
 
 func (g *generator) walkBoolean(schema *openapi3.Schema) (ast.Type, error) {
-	return ast.Bool(ast.Default(schema.Default)), nil
+	t := ast.Bool(ast.Default(schema.Default))
+	t.Nullable = schema.Nullable
+	return t, nil
 }
 
 func (g *generator) walkAny(_ *openapi3.Schema) (ast.Type, error) {
@@ -272,7 +282,6 @@ func (g *generator) walkAnyOf(schema *openapi3.Schema) (ast.Type, error) {
 }
 
 func (g *generator) walkEnum(schema *openapi3.Schema) (ast.Type, error) {
-	// Nullable enums? https://swagger.io/docs/specification/data-models/enums/
 	enums := make([]ast.EnumValue, 0, len(schema.Enum))
 	format := "%#v"
 	if schema.Type.Is(openapi3.TypeString) {
@@ -300,7 +309,9 @@ func (g *generator) walkEnum(schema *openapi3.Schema) (ast.Type, error) {
 		})
 	}
 
-	return ast.NewEnum(enums, ast.Default(schema.Default)), nil
+	t := ast.NewEnum(enums, ast.Default(schema.Default))
+	t.Nullable = schema.Nullable
+	return t, nil
 }
 
 func (g *generator) walkDisjunctions(schemaRefs []*openapi3.SchemaRef, discriminator string, mapping map[string]string) (ast.Type, error) {
